@@ -210,7 +210,7 @@ def run(ctx):
 
     # ---- model vs implementation, inside Coq ----
     shards = [allcases[i:i + PER_SHARD] for i in range(0, len(allcases), PER_SHARD)]
-    res = vlib.coq_run_shards(PROP, [shard_text(s) for s in shards], jobs=6)
+    res = vlib.coq_run_shards(PROP, [shard_text(s) for s in shards], jobs=4)
     mism = []
     for s, (okk, idx, raw) in zip(shards, res):
         if not okk:
